@@ -9,6 +9,8 @@ Not decided: layout, big-integer text, hex of arbitrary length (values).
 import re
 from .lib import *
 
+NEEDS_FLOW = True
+
 EXPLANATION = (
     "Family S (sibling tables): every row of the printer's tables (Display for DefaultFunction, Term/Constant/Type::to_doc, "
     "to_doc_list, to_doc_list_plutus_data, the escaping function) is compared with the corresponding row of the parser's tables "
@@ -74,6 +76,8 @@ def run(ctx, rep):
     rep.guarded("R15-TAGSITE", lambda: c04.r_tagsites(sh, rep, "R15-TAGSITE"))
     rep.rule("R15-BIGINTSITE", "printer and parser convert Data big integers only through from/to_pallas_bigint (shared with C04)", floor=2)
     rep.guarded("R15-BIGINTSITE", lambda: c04.r_bigintsites(sh, rep, "R15-BIGINTSITE"))
+    rep.rule("R15-BIGREPR", "the parser's `I <n>` and the printer convert Data big integers with mutually inverse big-integer arithmetic (shared with C04)", floor=5)
+    rep.guarded("R15-BIGREPR", lambda: c04.r_bigrepr(ctx.flow, rep, "R15-BIGREPR"))
     rep.guarded("R15-TOTAL", lambda: r_total(sh, rep, gram))
 
 
